@@ -7,6 +7,7 @@
 package c10
 
 import (
+	"context"
 	stderrors "errors"
 	"fmt"
 	"net/http"
@@ -90,6 +91,9 @@ func (prop) Run(t *testing.T, tape *kernel.Tape, sc kernel.Scenario) *kernel.Res
 
 	// ---- inputs
 	names := []string{"a", "b", "id", "ab"}
+	if tape.Bool(3, "placeholder-names-that-are-not-identifiers") {
+		names = []string{"org-id", "repo.name", "id", "a_b"}
+	}
 	nph := tape.Choose(5, "nplaceholders")
 	var patSegs []string
 	used := []string{}
@@ -211,6 +215,7 @@ func (prop) Run(t *testing.T, tape *kernel.Tape, sc kernel.Scenario) *kernel.Res
 	earlierFails := tape.Bool(4, "earlier-request-fails")          // its params writer fails after setting a query parameter
 	earlierOther := tape.Bool(4, "earlier-request-other")          // same operation id, other scheme list and values
 	laterOther := tape.Bool(3, "later-request")                    // built afterwards: must not change the measured request
+	via := tape.Weighted("built-through", 5, 1, 1, 1)              // 0 CreateHttpRequest 1 Submit 2 the OpenTelemetry wrapper 3 the OpenTracing wrapper
 	earlierSame := tape.Bool(4, "earlier-request-same-pattern")    // same pattern, every placeholder set, to other values
 	earlierExchangeFails := tape.Bool(5, "earlier-exchange-fails") // an earlier call over https died in the transport
 	if earlierSame || earlierExchangeFails {
@@ -363,7 +368,30 @@ func (prop) Run(t *testing.T, tape *kernel.Tape, sc kernel.Scenario) *kernel.Res
 		var gotErr error
 		var gotURL *url.URL
 		if pm := kernel.Catch(func() {
-			req, err := rt.CreateHttpRequest(op)
+			var req *http.Request
+			var err error
+			if via == 0 {
+				req, err = rt.CreateHttpRequest(op)
+			} else {
+				// the same request as the transport sees it when the call goes in through Submit or one of its tracing wrappers
+				rec := &recordingTransport{}
+				op.Client = &http.Client{Transport: rec} // (the Runtime's own client may already exist, made for an earlier call)
+				op.Reader = runtime.ClientResponseReaderFunc(func(runtime.ClientResponse, runtime.Consumer) (interface{}, error) { return nil, nil })
+				submit := rt.Submit
+				switch via {
+				case 2:
+					op.Context = context.Background()
+					submit = rt.WithOpenTelemetry().Submit
+				case 3:
+					op.Context = context.Background()
+					submit = rt.WithOpenTracing().Submit
+				}
+				_, err = submit(op)
+				req = rec.seen
+				if err == nil && req == nil {
+					err = stderrors.New("no request reached the transport")
+				}
+			}
 			gotErr = err
 			if err == nil {
 				gotURL = req.URL
@@ -558,4 +586,15 @@ func (failingTransport) RoundTrip(r *http.Request) (*http.Response, error) {
 		_ = r.Body.Close()
 	}
 	return nil, stderrors.New("dial tcp: connection refused")
+}
+
+// recordingTransport keeps the request it is given and answers 204.
+type recordingTransport struct{ seen *http.Request }
+
+func (t *recordingTransport) RoundTrip(r *http.Request) (*http.Response, error) {
+	t.seen = r
+	if r.Body != nil {
+		_ = r.Body.Close()
+	}
+	return &http.Response{StatusCode: 204, Status: "204 No Content", Header: http.Header{}, Body: http.NoBody, Request: r, Proto: "HTTP/1.1", ProtoMajor: 1, ProtoMinor: 1}, nil
 }
